@@ -49,8 +49,13 @@ MANIFEST = {
     "note": "NOT proved: heap behaviour of the rest of the library. Ownership of data-tree / schema / context memory (consumed "
             "inputs, outputs NULL on failure, subtree freeing, dictionary empty at ly_ctx_destroy) is only SEARCHED: the Ownership "
             "oracle runs random sequences of API calls including failing ones under AddressSanitizer + LeakSanitizer and compares "
-            "the context's dictionary size before/after and counts 'not freed' warnings. A leak on a path the generator does not "
-            "reach stays unseen. Allocation failure, threads and strings with embedded NUL are out of the model.",
+            "the context's dictionary size before/after and counts 'not freed' warnings. Oracle-level only (no Coq statement): the "
+            "catalogue of calls that allocate-and-release temporaries (lyd_value_validate with/without context node for every type "
+            "family - valid, invalid when stored, invalid when resolved -, lyd_value_compare, lyd_change_term/_canon/_bin, "
+            "lyd_dup_meta_single, lyd_any_value_str, lyd_any_copy_value, merge / diff callbacks failing at every position) and of "
+            "calls that unlink-and-free one element of a chain (lyd_free_meta_single/_siblings, lyd_free_attr_single/_siblings, "
+            "unlink/free of siblings at every position of chains of 1..4: exactly the other elements must remain, in order). "
+            "A leak on a path the generator does not reach stays unseen. Allocation failure, threads and strings with embedded NUL are out of the model.",
     "technique": "Coq refinement proof (arena-style model -> per-bucket lists -> finite map) + differential correspondence "
                  "(extracted OCaml vs C, white-box state dump) + sanitizer-backed API-sequence search",
 }
